@@ -22,7 +22,7 @@ from common import ModelErr, b2f, f2b
 from linsolve_util import dec, enc, tolist, vclose
 
 PROP = "C14"
-CLAIMED = False
+CLAIMED = True
 ENGINE = "LinSolve"
 DESIGN_REF = "DESIGN.md §5.4"
 TECHNIQUE = (
